@@ -26,3 +26,11 @@ impl<R: Round> Clone for Context<R> {
     fn clone(&self) -> (r: Self) ensures r == *self { unimplemented!() }
 }
 impl<R: Round> Copy for Context<R> {}
+impl IBig {
+    /// integer/src/ibig.rs `IBig::is_one`, `IBig::NEG_ONE` (axiom ibig_neg_one_const)
+    #[verifier::external_body]
+    pub fn is_one(&self) -> (r: bool) ensures r == (self.v() == 1) { unimplemented!() }
+    #[verifier::external_body]
+    pub const NEG_ONE: IBig = IBig { _p: 0 };
+}
+pub broadcast axiom fn ibig_neg_one_const() ensures #![trigger IBig::NEG_ONE.v()] IBig::NEG_ONE.v() == -1;
